@@ -157,14 +157,17 @@ def spec_apply_line(c, res):
     ov = overdicts(res["msgs"], len(c["hs"]))
     if ov is None:
         return None
-    return "SPEC_APPLY %s %s %s %s %s %d %s" % (opt_str(**c["opts"]), enc_lines(c["f"]), enc_hunks(c["hs"]),
+    return "SPEC_APPLY %d %s %s %s %s %s %d %s" % (1 if c.get("oldp") == "/dev/null" else 0, opt_str(**c["opts"]), enc_lines(c["f"]), enc_hunks(c["hs"]),
                                                ",".join(ov) or "-", hx(res["out"]), res["failed"], hx(res["rej"]))
 
 
 def run_drifted(run_, prop, rng, n, key):
     """Family 'drifted' through implementation, model and the extracted oracle spec_apply; key = 'C02'|'C03'|'C04'."""
     fam = family_drifted(rng, n)
-    cases = [apply_case(opt_str(**c["opts"]), "unified", c["f"], c["hs"]) for c in fam]
+    for c in fam:
+        if rng.random() < 0.1:
+            c["oldp"] = "/dev/null"
+    cases = [apply_case(opt_str(**c["opts"]), "unified", c["f"], c["hs"], oldp=c.get("oldp", "a")) for c in fam]
     impl, model = run_both(cases)
     mism = [i for i in range(len(cases)) if impl[i] != model[i]]
     spec_lines, idx = [], []
